@@ -76,7 +76,7 @@ def set_perturb(byte):
     _libc.mallopt(ctypes.c_int(-6), ctypes.c_int(int(byte) & 0xFF))
 
 
-from cidersim.faultat import FaultAt, InjectedFault, draw_fault  # noqa: E402,F401
+from cidersim.faultat import FaultAt, InjectedFault, draw_fault, for_op, remember  # noqa: E402,F401
 
 
 def scribble(hist, stats, *arrays):
@@ -516,7 +516,7 @@ def exec_ni_history(hist, rp):
             arg = (arg[0], arg[0])  # the *same* array object as alpha and beta
         before = adigest(*(arg if isinstance(arg, (list, tuple)) else [arg]), g.coords, g.weights, mol._atm, mol._bas, mol._env)
         fn = ni.nr_uks if uks else ni.nr_rks
-        inj = FaultAt(op.get("fault"))
+        inj = for_op(op)
         try:
             with inj:
                 n, e, v = fn(mol, g, ks.xc, arg, max_memory=op["max_memory"])
@@ -524,10 +524,11 @@ def exec_ni_history(hist, rp):
             import traceback
 
             if inj.fired:
+
+                remember(op, inj)
                 # un-acknowledged call: nothing is demanded of it; the objects live on
                 stats["calls_interrupted_by_injected_failure"] += 1
                 stats["fault_site_" + inj.where] += 1
-                dg.add("fault", inj.where)
                 continue
 
             tb = traceback.extract_tb(ex.__traceback__)
@@ -785,12 +786,13 @@ def exec_nldfgen_history(hist, rp):
                 big[1 : nrow + 1] = arr
                 arr = big[1 : nrow + 1]
             b = adigest(arr)
-            inj = FaultAt(op.get("fault"))
+            inj = for_op(op)
             try:
                 with inj:
                     f = gen.get_features(arr, spin=s, **KW[mode])
             except Exception as ex:
                 if inj.fired:
+                    remember(op, inj)
                     stats["calls_interrupted_by_injected_failure"] += 1
                     stats["fault_site_" + inj.where] += 1
                     last_rho.pop(sk, None)
@@ -817,12 +819,13 @@ def exec_nldfgen_history(hist, rp):
             if op["alias"] == "readonly":
                 arr.setflags(write=False)
             b = adigest(arr)
-            inj = FaultAt(op.get("fault"))
+            inj = for_op(op)
             try:
                 with inj:
                     pot = gen.get_potential(arr, spin=s, **KW[mode])
             except Exception as ex:
                 if inj.fired:
+                    remember(op, inj)
                     # the feature pass of this spin stays valid: a repeated potential
                     # evaluation must still work
                     stats["calls_interrupted_by_injected_failure"] += 1
@@ -911,11 +914,12 @@ def exec_tgen_history(hist, rp):
             elif cur is None or cur == "grid":
                 cur = 0
                 point(gen, cur)
-            inj = FaultAt(op.get("fault"))
+            inj = for_op(op)
             with inj:
                 got, ins = call(gen, op, cur)
         except Exception as ex:
             if op["op"] != "setc" and op.get("fault") and inj.fired:
+                remember(op, inj)
                 stats["calls_interrupted_by_injected_failure"] += 1
                 stats["fault_site_" + inj.where] += 1
                 continue
@@ -980,7 +984,7 @@ def exec_sdmxgen_history(hist, rp):
         dms = np.array(dms, copy=True, order="C")
         dms_orig = dms.copy()
         b = adigest(dms, coords)
-        inj = FaultAt(op.get("fault"))
+        inj = for_op(op)
         try:
             with inj:
                 cao = gen.get_cao(mol, coords, save_buf=True) if op["save_buf"] else None
@@ -996,6 +1000,7 @@ def exec_sdmxgen_history(hist, rp):
                     V("repeat:EXXSphGenerator.get_vxc_:vmat", "step %d: second potential evaluation differs: %s" % (step, why))
         except Exception as ex:
             if inj.fired:
+                remember(op, inj)
                 # interrupted feature/potential pass: un-acknowledged; the generator lives on
                 stats["calls_interrupted_by_injected_failure"] += 1
                 stats["fault_site_" + inj.where] += 1
@@ -1418,13 +1423,14 @@ def exec_plan_history(hist, rp):
             if op["op"] == "rho":
                 f_in, r_in = fs[op["f"]].copy(), rhos[op["rho"]].copy()
                 b = adigest(f_in, r_in)
-                inj = FaultAt(op.get("fault"))
+                inj = for_op(op)
                 try:
                     with inj:
                         feat, dfeat = plan.eval_rho_full(f_in, r_in, spin=s, cache_p=op["cache_p"])
                 except Exception:
                     if not inj.fired:
                         raise
+                    remember(op, inj)
                     stats["calls_interrupted_by_injected_failure"] += 1
                     stats["fault_site_" + inj.where] += 1
                     last.pop(sk, None)  # no feature pass to build a potential from
@@ -1447,13 +1453,14 @@ def exec_plan_history(hist, rp):
                 v_in, r_in = vfs[op["v"]].copy(), rhos[j].copy()
                 b = adigest(v_in, r_in, dfeat)
                 vrho = np.zeros_like(r_in)
-                inj = FaultAt(op.get("fault"))
+                inj = for_op(op)
                 try:
                     with inj:
                         vf = plan.eval_vxc_full(v_in, vrho, dfeat, r_in, spin=s)
                 except Exception:
                     if not inj.fired:
                         raise
+                    remember(op, inj)
                     stats["calls_interrupted_by_injected_failure"] += 1
                     stats["fault_site_" + inj.where] += 1
                     continue
@@ -1528,12 +1535,13 @@ def exec_eval_history(hist, rp):
             rho_data[:, 4] = np.abs(r.normal(size=(nspin, n))) * rho_data[:, 0] ** (5.0 / 3) + (rho_data[:, 1:4] ** 2).sum(1) / (8 * rho_data[:, 0] + 1e-300)
             rt = get_rho_tuple_with_grad_cross(rho_data, is_mgga=True)
             b = adigest(X0TN, *rt)
-            inj = FaultAt(op.get("fault"))
+            inj = for_op(op)
             try:
                 with inj:
                     out = _eval_model(m, X0TN, rt, op["rhocut"])
             except Exception as ex:
                 if inj.fired:
+                    remember(op, inj)
                     stats["calls_interrupted_by_injected_failure"] += 1
                     stats["fault_site_" + inj.where] += 1
                     continue
